@@ -170,3 +170,33 @@ func H_C10_selectors() {
 	}
 	diffSearch(expr, doc, c01Unordered(expr))
 }
+
+// H_C10_unary2: a prefix operator on any operand of a two-operator chain takes
+// exactly that operand, whatever follows it: a o1 -b o2 c is a o1 (-b) o2 c
+// (a parser that rewrites "- -b" or parses the operand of a sign with a looser
+// binding power lets the sign cover b o2 c).
+func H_C10_unary2() {
+	reps := []c10Op{{"||", 2}, {"&&", 3}, {"==", 5}, {"<", 5}, {"+", 6}, {"-", 6}, {"−", 6}, {"*", 7}, {"/", 7}, {"//", 7}, {"%", 7}}
+	o1 := reps[vrtChoose("op1", len(reps))].text
+	o2 := reps[vrtChoose("op2", len(reps))].text
+	pre := []string{"-", "!", "+"}[vrtChoose("prefix", 3)]
+	doc := c10DocP(false)
+	switch vrtChoose("pos", 4) {
+	case 0:
+		e := pre + "a " + o1 + " b " + o2 + " c"
+		vrtNote("template:" + e)
+		c10Same(e, "("+pre+"a) "+o1+" b "+o2+" c", doc)
+	case 1:
+		e := "a " + o1 + " " + pre + "b " + o2 + " c"
+		vrtNote("template:" + e)
+		c10Same(e, "a "+o1+" ("+pre+"b) "+o2+" c", doc)
+	case 2:
+		e := "a " + o1 + " b " + o2 + " " + pre + "c"
+		vrtNote("template:" + e)
+		c10Same(e, "a "+o1+" b "+o2+" ("+pre+"c)", doc)
+	default:
+		e := "a " + o1 + " " + pre + pre + "b " + o2 + " c"
+		vrtNote("template:" + e)
+		c10Same(e, "a "+o1+" ("+pre+"("+pre+"b)) "+o2+" c", doc)
+	}
+}
